@@ -61,36 +61,78 @@ EXACT = {'__int__': 'int', '__float__': 'float', '__complex__': 'complex', '__le
          '__format__': 'format'}
 
 
-def r3_exact_conversions(ctx, cls, mod):
+def r3_exact_conversions(ctx, cls, mod, sym=None):
     ctx.rule('R3', "conversions for which CPython demands an exact result type (__int__ __float__ __complex__ "
-                   "__index__ __len__ __bool__ __hash__ __str__ __repr__ __bytes__ __format__) return the builtin "
-                   "applied to the unwrapped value, never a re-wrapped proxy and never an explicit dunder call that "
-                   "the builtin does not require the type to have")
+                   "__index__ __len__ __bool__ __hash__ __str__ __repr__ __bytes__ __format__), each executed "
+                   "abstractly on a model value that has no dunder methods of its own: the result is what the builtin "
+                   "returns for the unwrapped value (with the caller's extra arguments), never a re-wrapped proxy and "
+                   "never obtained through an explicit dunder the builtin does not require the type to have")
+    from .. import symexec
+    sym = sym or Symbols(ctx.repo)
     for fn in cls.body:
         if not isinstance(fn, ast.FunctionDef) or fn.name not in list(EXACT) + ['__index__']:
             continue
         ctx.analysed_function(mod, fn)
-        rets = [n for n in body_walk(fn) if isinstance(n, ast.Return)]
-        ok = len(rets) >= 1
-        why = ''
-        for r in rets:
-            v = r.value
-            src = norm(v)
-            if '_clone_this_result' in src or 'SandboxResult(' in src:
-                ok, why = False, "returns a re-wrapped proxy (%s); CPython rejects a non-exact result" % src
-            elif fn.name == '__index__':
-                if src not in ('self.value.__index__()', 'operator.index(self.value)', 'int(self.value)'):
-                    ok, why = False, "unrecognised __index__ body %s" % src
-            else:
-                want = EXACT[fn.name]
-                want = want if isinstance(want, tuple) else (want,)
-                if not (isinstance(v, ast.Call) and call_name(v) in want and v.args and norm(v.args[0]) == 'self.value'):
-                    ok, why = False, ("computes through %s instead of %s(self.value); the explicit dunder does not "
-                                      "exist on every type the builtin accepts" % (src, want[0]))
+        rec = symexec.Recorder()
+        value = Obj('student-value')
+        value.attrs['__closed__'] = True
+        if fn.name == '__index__':
+            # operator.index() is only ever asked of values that define __index__
+            value.attrs['method:__index__'] = rec.stub('value.__index__', ret='exact:index')
+        me = symexec.self_obj(mod, cls.name, closed=True, value=value, _actual_value=value)
+        wrapped = []
+
+        def rewrap(*a, **k):
+            o = Obj('proxy')
+            wrapped.append(o)
+            return o
+        symexec.method(me, '_clone_this_result', rewrap)
+        builtins_ = ('int', 'float', 'complex', 'len', '_original_len', 'bool', 'hash', 'str', 'repr', 'bytes',
+                     'format', 'operator.index')
+        calls_ = {b: rec.stub(b, ret='exact:' + b) for b in builtins_}
+        calls_['SandboxResult'] = rewrap
+        fd = symexec.new_fd(sym, mod, calls=calls_)
+        extra = ['>8'] if fn.name == '__format__' else []
+        got, raised = symexec.run(fd, fn, extra, bound_self=me, what='SandboxResult.' + fn.name)
+        want = EXACT.get(fn.name, ('operator.index', 'int', 'value.__index__'))
+        want = want if isinstance(want, tuple) else (want,)
+        used = [e for e in rec.events if e[0] in want and e[1][:1] == (value,) or (
+            e[0] == 'value.__index__' and 'value.__index__' in want)]
+        ok = raised is None and len(used) >= 1 and isinstance(got, str) and got.startswith('exact:') and \
+            not wrapped and (fn.name != '__format__' or used[-1][1][1:] == ('>8',))
+        if raised is not None:
+            why = "raises %s (%s) on a value that supports the builtin but has no dunder of its own" % (
+                raised.kind, raised.detail)
+        elif wrapped or isinstance(got, Obj):
+            why = "returns a re-wrapped proxy; CPython rejects a non-exact result"
+        else:
+            why = "returns %r after %s instead of %s(<unwrapped value>%s)" % (
+                got, [e[0] for e in rec.events], want[0], ", format_spec" if fn.name == '__format__' else '')
         ex = {'__float__': "float(call('f')) raises TypeError: __float__ returned non-float (type SandboxResult)",
               '__complex__': "complex(call('f')) for an int/float result raises AttributeError: 'int' object has no "
                              "attribute '__complex__'"}.get(fn.name, "%s on a proxied result" % fn.name)
-        ctx.check(ok, 'R3', 'SandboxResult.' + fn.name, mod, fn, why or 'ok', ex)
+        ctx.check(ok, 'R3', 'SandboxResult.' + fn.name, mod, fn, why, ex)
+        if fn.name == '__index__':
+            continue
+        # ... and when the builtin rejects the value, so does the proxy (with the same exception)
+        def rejecting(b):
+            def f(*a, **k):
+                if a[:1] == (value,) and b in want:
+                    raise Raised('TypeError', 'unsupported for this value')
+                return 'exact:' + b     # the same builtin on some other object (its text, say) succeeds
+            return f
+        calls2 = {b: rejecting(b) for b in builtins_}
+        calls2['SandboxResult'] = rewrap
+        me2 = symexec.self_obj(mod, cls.name, closed=True, value=value, _actual_value=value)
+        symexec.method(me2, '_clone_this_result', rewrap)
+        got2, raised2 = symexec.run(symexec.new_fd(sym, mod, calls=calls2), fn, extra, bound_self=me2,
+                                    what='SandboxResult.' + fn.name)
+        ctx.check(raised2 is not None and raised2.kind == 'TypeError', 'R3', 'SandboxResult.%s:rejects-like-the-value'
+                  % fn.name, mod, fn,
+                  "when %s(<value>) raises TypeError the proxy %s" % (want[0], 'returns %r' % (got2,) if raised2 is None
+                                                                    else 'raises %s' % raised2.kind),
+                  "format(call('f'), '>10') for a list result returns text although format([1], '>10') raises "
+                  "TypeError")
 
 
 class Protocol:
